@@ -79,7 +79,7 @@ ExplicitDelete(n) == n.del = "T"
 
 \* node.py:278-281
 HasPriorityOver(a, b, ifEqual) ==
-    IF EffPr(a) = EffPr(b) THEN ifEqual ELSE EffPr(a) > EffPr(b)
+    IF EffPr(a) = EffPr(b) THEN (ifEqual \/ Mut("PriorityGE")) ELSE EffPr(a) > EffPr(b)
 
 ----------------------------------------------------------------------------
 \* Children
@@ -195,5 +195,17 @@ Compact(d) ==
                                    d |-> [i \in 1..Len(d.ch) |-> <<KeyStr(d.ch[i][1]), Compact(d.ch[i][2])>>]]
     ELSE IF d.k = "scalar" THEN AtomStr(d.v)
     ELSE [n |-> d.k]
+
+\* the same for a node tree, user metadata included where present:
+\* [m |-> {<<name, "t:text">>..}, x |-> compact]
+RECURSIVE CompactN(_)
+CompactN(n) ==
+    LET kids == [i \in 1..Len(n.ch) |-> <<KeyStr(n.ch[i][1]), CompactN(n.ch[i][2])>>]
+        body == IF IsList(n) THEN [i \in 1..Len(n.ch) |-> CompactN(n.ch[i][2])]
+                ELSE IF IsFn(n) THEN [c |-> n.k, f |-> n.fn, d |-> kids]
+                ELSE IF IsDict(n) THEN [d |-> kids]
+                ELSE IF n.k = "scalar" THEN AtomStr(n.v)
+                ELSE [n |-> n.k]
+    IN IF n.md = {} THEN body ELSE [m |-> {<<e[1], AtomStr(e[2])>> : e \in n.md}, x |-> body]
 
 =============================================================================
